@@ -173,7 +173,7 @@ func render1(w writer, n *Node) error {
 			return err
 		}
 	}
-	if voidElements[n.Data] {
+	if n.Namespace == "" && voidElements[n.Data] {
 		if n.FirstChild != nil {
 			return fmt.Errorf("html: void element <%s> has child nodes", n.Data)
 		}
